@@ -34,7 +34,7 @@ LEVEL = "exploration"
 OPS = ["random_removal", "worst_removal", "related_removal", "route_removal", "sync_removal",
        "greedy_insertion", "regret_insertion", "sync_aware_insertion"]
 RULES = ["spt", "lpt", "mwkr", "fifo", "random"]
-CASE_TIMEOUT = 30  # s, per case (a solver call that does not come back)
+CASE_TIMEOUT = 90  # CPU s (ITIMER_VIRTUAL), per case (a solver call that does not come back)
 MAX_PER_OBLIGATION = 2
 
 
@@ -96,18 +96,21 @@ def run_jobshop_case(case):
         kw["progress_interval"] = 1
     out = []
     mon = _JSMonitor(js, jobs)
-    old = signal.signal(signal.SIGALRM, _alarm)
-    signal.alarm(CASE_TIMEOUT)
+    old = signal.signal(signal.SIGVTALRM, _alarm)
+    signal.setitimer(signal.ITIMER_VIRTUAL, CASE_TIMEOUT)
     try:
-        with mon:
-            res = js.solve_job_shop(jobs, **kw)
+        try:
+            with mon:
+                res = js.solve_job_shop(jobs, **kw)
+        finally:
+            signal.setitimer(signal.ITIMER_VIRTUAL, 0)
     except _Timeout:
         return [("C18/solve_job_shop/returns", f"no result after {CASE_TIMEOUT}s")], {"built": mon.n}
     except Exception as e:  # valid input: any exception means no schedule came back
         return [("C18/solve_job_shop/returns", f"raised {type(e).__name__}: {e}")], {"built": mon.n}
     finally:
-        signal.alarm(0)
-        signal.signal(signal.SIGALRM, old)
+        signal.setitimer(signal.ITIMER_VIRTUAL, 0)
+        signal.signal(signal.SIGVTALRM, old)
     for clause, det in jobshop_result_problems(jobs, res.solution, res.objective)[:3]:
         out.append((f"C18/solve_job_shop/ensures:{clause}", det))
     for name, clause, det in mon.bad:
@@ -340,20 +343,23 @@ def run_vrp_solve_case(case):
         kw["progress_interval"] = 1
     mon = _VRPMonitor(vm, pc, len(pv))
     info = {"calls": mon.calls, "skipped": 0}
-    old = signal.signal(signal.SIGALRM, _alarm)
-    signal.alarm(CASE_TIMEOUT)
+    old = signal.signal(signal.SIGVTALRM, _alarm)
+    signal.setitimer(signal.ITIMER_VIRTUAL, CASE_TIMEOUT)
     res = None
     out = []
     try:
-        with mon:
-            res = vm.solve_vrptw(customers, vehicles, **kw)
+        try:
+            with mon:
+                res = vm.solve_vrptw(customers, vehicles, **kw)
+        finally:
+            signal.setitimer(signal.ITIMER_VIRTUAL, 0)
     except _Timeout:
         out.append(("C18/solve_vrptw/returns", f"no result after {CASE_TIMEOUT}s"))
     except Exception as e:
         out.append(("C18/solve_vrptw/returns", f"raised {type(e).__name__}: {e}"))
     finally:
-        signal.alarm(0)
-        signal.signal(signal.SIGALRM, old)
+        signal.setitimer(signal.ITIMER_VIRTUAL, 0)
+        signal.signal(signal.SIGVTALRM, old)
     info["skipped"] = mon.skipped_pre
     for op, clause, det in mon.bad:
         out.append((f"C18/{op}/{clause}", det + f"  [{mon.n_bad[(op, clause)]} such call(s) in this run]"))
